@@ -629,6 +629,7 @@ func c03(c *Ctx) {
 	pooledObjectsReset(c, "pooled-object-reset", "services", "listener", "server")
 	c03LimiterState(c)
 	c03MemoKeyExact(c)
+	servicesPayloadIsWhatWasRead(c, "payload-bounded-by-read-count", "when fewer bytes arrived than that bound the payload's tail is what the buffer held before – with a recycled buffer, bytes of another client's request", "services")
 	// a lock of the shared service object that one client's input leaves held (a panic inside a critical section whose Unlock
 	// is not deferred – the dispatcher recovers) decides what every later client gets (shared with C09/C01)
 	c09LockRelease(c)
